@@ -17,26 +17,43 @@ type ModbusTCPAssembler struct {
 func (m *ModbusTCPAssembler) ReceiveRead(ctx context.Context, received []byte, bytesRead int) (response []byte, closeConnection bool) {
 	m.received.Write(received)
 
-	n, err := packet.LooksLikeModbusTCP(m.received.Bytes(), false)
-	if err == packet.ErrTCPDataTooShort {
-		return nil, false // wait for more data to arrive
-	} else if err != nil {
-		return err.(*packet.ErrorParseTCP).Bytes(), false
+	// a single read can complete more than one request (clients that send the next request early)
+	for {
+		n, err := packet.LooksLikeModbusTCP(m.received.Bytes(), false)
+		if err == packet.ErrTCPDataTooShort {
+			return response, false // wait for more data to arrive
+		}
+		if err == packet.ErrIsNotTCPPacket {
+			// the stream can not be re-synchronised: answer and close the connection
+			m.received.Reset()
+			return append(response, err.(*packet.ErrorParseTCP).Bytes()...), true
+		}
+		if m.received.Len() < n {
+			return response, false // wait for the rest of the packet to arrive
+		}
+		frame := m.received.Next(n)
+		if err != nil { // unsupported function code: the packet is consumed and answered with an exception
+			response = append(response, err.(*packet.ErrorParseTCP).Bytes()...)
+			continue
+		}
+		response = append(response, m.handle(ctx, frame)...)
 	}
+}
 
-	p, err := packet.ParseTCPRequest(m.received.Next(n))
+func (m *ModbusTCPAssembler) handle(ctx context.Context, frame []byte) []byte {
+	p, err := packet.ParseTCPRequest(frame)
 	if err != nil {
-		return err.(*packet.ErrorParseTCP).Bytes(), false
+		return err.(*packet.ErrorParseTCP).Bytes()
 	}
 
 	resp, err := m.Handler.Handle(ctx, p)
 	if err != nil {
 		var target *packet.ErrorParseTCP
 		if errors.As(err, &target) {
-			return target.Bytes(), false
+			return target.Bytes()
 		}
-		return packet.NewErrorParseTCP(packet.ErrUnknown, err.Error()).Bytes(), false
+		return packet.NewErrorParseTCP(packet.ErrUnknown, err.Error()).Bytes()
 	}
 
-	return resp.Bytes(), false
+	return resp.Bytes()
 }
